@@ -276,15 +276,25 @@ fn raw_sequences(a: &Args, rep: &mut Report) {
                 ($name:expr, $cur:expr, $content:expr) => {{
                     rep.eval();
                     let mut cur = $cur;
-                    let mut got = Vec::new();
-                    let mut positions = Vec::new();
-                    for c in &chunks {
-                        got.push(cur.write_all(c).is_ok());
-                        positions.push(cur.position());
-                    }
-                    let content: Vec<u8> = $content(cur);
-                    if got != outcomes || *positions.last().unwrap() != pos || content != want {
-                        fail(rep, $name, "raw-write_all", format!("capacity {} write lengths {:?}: results {:?} (model {:?}), final position {} (model {}), content {} (model {})", cap, lens, got, outcomes, positions.last().unwrap(), pos, hex(&content), hex(&want)), &rp);
+                    let chunks_ref = &chunks;
+                    let r = mon::guarded(move || {
+                        let chunks = chunks_ref;
+                        let mut got = Vec::new();
+                        let mut positions = Vec::new();
+                        for c in chunks.iter() {
+                            got.push(cur.write_all(c).is_ok());
+                            positions.push(cur.position());
+                        }
+                        let content: Vec<u8> = $content(cur);
+                        (got, positions, content)
+                    });
+                    match r {
+                        Err(p) => fail(rep, $name, "raw-write_all-panic", format!("capacity {} write lengths {:?}: {} at {}", cap, lens, p.message, p.location), &rp),
+                        Ok((got, positions, content)) => {
+                            if got != outcomes || *positions.last().unwrap() != pos || content != want {
+                                fail(rep, $name, "raw-write_all", format!("capacity {} write lengths {:?}: results {:?} (model {:?}), final position {} (model {}), content {} (model {})", cap, lens, got, outcomes, positions.last().unwrap(), pos, hex(&content), hex(&want)), &rp);
+                            }
+                        }
                     }
                 }};
             }
